@@ -29,6 +29,7 @@ def forced_classes(rng, n):
     out = [(p, False, "fixed_window") for p in sp.fixed_window_cases()]
     out += [(p, False, "sorted_then") for p in sp.sorted_then_sequences(False)]
     out += [(p, False, "op_sequences") for p in sp.op_sequences(False)]
+    out += [(p, False, "self_join_nested") for p in sp.self_join_nested()]
     # join predicates that fold to a constant, alone and inside compounds, over operands with and without shared columns
     a, b, c = K(1), K(2), N(1)
     atom = ("cmp", "lt", ("ref", a), ("lit", 2))
